@@ -38,6 +38,8 @@ func runC19(c *Ctx) {
 	w := c.W
 	pkg := "tagformat/caseconversion"
 	fn := func(n string) *ssa.Function { return w.fn(pkg, n) }
+	c.rule("separator-by-position", "in the encoders that write their separator inside the word loop, whether a separator is written is decided by the word's position (comparisons of the loop index), never by comparing word texts (a word equal to the last one would lose its separator)", 2)
+	c19SeparatorByPosition(c, "separator-by-position")
 
 	// ---- separator-agree ---------------------------------------------------------
 	encSep := func(f *ssa.Function) (string, bool) {
@@ -916,4 +918,53 @@ func remainderOf(v, s, L ssa.Value) bool {
 		}
 		return false
 	}()
+}
+
+// c19SeparatorByPosition: see the rule text.
+func c19SeparatorByPosition(c *Ctx, rule string) {
+	w := c.W
+	n := 0
+	for _, f := range w.funcsIn("tagformat/caseconversion") {
+		if !strings.HasPrefix(fnName(f), "Encode") || len(f.Blocks) == 0 {
+			continue
+		}
+		for _, i := range allInstrs(f) {
+			ci, ok := i.(*ssa.Call)
+			if !ok || !inLoop(ci) {
+				continue
+			}
+			nm := calleeFullName(ci)
+			isSep := false
+			switch nm {
+			case "(*strings.Builder).WriteRune", "(*strings.Builder).WriteByte":
+				_, isSep = constInt(ci.Call.Args[1])
+			case "(*strings.Builder).WriteString":
+				_, isSep = constString(ci.Call.Args[1])
+			}
+			if !isSep {
+				continue
+			}
+			n++
+			c.analysed(relName(f))
+			entry := loopBodyEntry(ci.Block())
+			if entry == nil {
+				continue
+			}
+			pb := &predBuilder{}
+			g := pb.pathCond(entry, ci.Block())
+			fb, fi := map[string]bool{}, map[string]bool{}
+			atomsOf(g, fb, fi)
+			bad := ""
+			for a := range fb {
+				if strings.HasPrefix(a, "eq(") {
+					bad = a
+				}
+			}
+			c.check(bad == "", rule, relName(f)+"#separator", ci.Pos(), "the separator is written under conditions on the position only ("+g.String()+")",
+				"whether the separator is written depends on a comparison of texts ("+bad+"): a word equal to the one it is compared with loses (or gains) its separator, and the encoding no longer decodes to the same words")
+		}
+	}
+	if n == 0 {
+		c.okTrivial(rule, "encoders", 0, "no encoder writes a separator inside a loop")
+	}
 }
